@@ -44,8 +44,11 @@ fn noisy_env(rng: &mut Rng, dict: &[String]) -> Vec<(String, String)> {
     ];
     v.push(("SIM_JUNK".to_string(), "j".repeat(rng.range(100, 3000))));
     // names from the expander's own sources (dictionary)
+    // (not the variables by which cargo and rustup themselves choose the compiler and the
+    // directories: with those set to "1" there is no compilation to observe)
+    const TOOLING: [&str; 16] = ["RUSTC", "RUSTDOC", "RUSTC_WRAPPER", "RUSTC_WORKSPACE_WRAPPER", "RUSTFLAGS", "RUSTDOCFLAGS", "RUSTUP_TOOLCHAIN", "RUSTUP_HOME", "CARGO", "CARGO_HOME", "CARGO_TARGET_DIR", "CARGO_BUILD_TARGET", "CARGO_ENCODED_RUSTFLAGS", "PATH", "HOME", "LD_PRELOAD"];
     for k in dict {
-        if !v.iter().any(|e| &e.0 == k) {
+        if !v.iter().any(|e| &e.0 == k) && !TOOLING.contains(&k.as_str()) && !k.starts_with("CARGO_BUILD_") && !k.starts_with("CARGO_PROFILE_") {
             v.push((k.clone(), "1".to_string()));
         }
     }
@@ -319,6 +322,25 @@ fn normalise_acc(rendering: &str) -> String {
     blocks.into_iter().map(|b| format!("m{}", b.1)).collect::<Vec<_>>().join("\n")
 }
 
+/// a second installed toolchain (`nightly`), or None; `SIM_TIER_R_TOOLCHAIN=none|<name>` overrides
+pub fn other_toolchain() -> Option<&'static str> {
+    static TC: std::sync::OnceLock<Option<String>> = std::sync::OnceLock::new();
+    TC.get_or_init(|| {
+        match std::env::var("SIM_TIER_R_TOOLCHAIN") {
+            Ok(v) if v == "none" => return None,
+            Ok(v) if !v.is_empty() => return Some(v),
+            _ => {},
+        }
+        let ok = Command::new("cargo").args(["+nightly", "--version"]).env_remove("RUSTUP_TOOLCHAIN").output().map(|o| o.status.success()).unwrap_or(false);
+        if ok {
+            Some("nightly".to_string())
+        } else {
+            None
+        }
+    })
+    .as_deref()
+}
+
 fn cargo_cmd(dir: &Path, target: &Path, shim: Option<(&Path, &RunCfg)>) -> Command {
     let mut c = Command::new("cargo");
     c.current_dir(dir);
@@ -329,6 +351,13 @@ fn cargo_cmd(dir: &Path, target: &Path, shim: Option<(&Path, &RunCfg)>) -> Comma
     for k in ["PATH", "HOME", "CARGO_HOME", "RUSTUP_HOME", "RUSTUP_TOOLCHAIN", "LD_LIBRARY_PATH"] {
         if let Ok(v) = std::env::var(k) {
             c.env(k, v);
+        }
+    }
+    // the *other package* (directories named `*-alt`) is also built by another toolchain, if one
+    // is installed: rustc, std, and the proc_macro bridge the macro talks to are all different
+    if dir.file_name().map(|n| n.to_string_lossy().ends_with("-alt")).unwrap_or(false) {
+        if let Some(tc) = other_toolchain() {
+            c.env("RUSTUP_TOOLCHAIN", tc);
         }
     }
     c.env("CARGO_NET_OFFLINE", "true");
@@ -613,6 +642,14 @@ pub fn prepare(cfg: &Cfg) -> Result<(), String> {
         if !out.status.success() {
             return Err(format!("tier-R dependency build failed ({}): {}", backend.tag(), String::from_utf8_lossy(&out.stderr).lines().filter(|l| l.starts_with("error")).take(5).collect::<Vec<_>>().join(" / ")));
         }
+        // the same for the other package / other toolchain (a failure here is not fatal: the run falls back)
+        if other_toolchain().is_some() {
+            let alt = base.join(format!("{}-prep-alt", backend.tag()));
+            let lib = "#![allow(warnings)]\nextern crate mapper as o2o;\npub mod m0 {\nuse o2o::o2o;\n#[derive(o2o)]\n#[map(PrepDto)]\npub struct Prep { pub x: i32 }\npub struct PrepDto { pub x: i32 }\n}\n";
+            if setup_crate_files(&alt, &cfg.repo, backend, lib, &[], true).is_ok() {
+                let _ = cargo_cmd(&alt, &target, None).args(["build", "--offline", "-q"]).output();
+            }
+        }
     }
     Ok(())
 }
@@ -717,7 +754,7 @@ pub fn run(cfg: &Cfg, corpus: &Corpus) -> Result<TierResult, String> {
                     let _ = std::fs::create_dir_all(cfg.verif.join("replays"));
                     let v = json!({
                         "property": "C19", "kind": "rustc_tier", "permuted": true,
-                        "what": "real cargo/rustc with the real o2o-macros dylib expanded the same items differently when the crate was compiled as another package (name, version, edition, manifest directory) with the dependency renamed in the manifest, its modules in reversed source order and every item in other surroundings (nested module, function body, macro_rules expansion in the same or from another file) (all derives of a crate run in one rustc process, in source order)",
+                        "what": "real cargo/rustc with the real o2o-macros dylib expanded the same items differently when the crate was compiled as another package (name, version, edition, manifest directory) with another toolchain (if installed), the dependency renamed in the manifest, its modules in reversed source order and every item in other surroundings (nested module, function body, macro_rules expansion in the same or from another file) (all derives of a crate run in one rustc process, in source order)",
                         "backend": backend.tag(), "crate_kind": kind, "repo": cfg.repo.to_string_lossy(),
                         "lib_rs": original, "lib_rs_permuted": reversed, "extra_files": extra_files.iter().map(|(n, c)| json!([n, c])).collect::<Vec<_>>(), "o2o_messages": sel.o2o_messages.iter().cloned().collect::<Vec<_>>(),
                         "reference_run": runcfg_json(&runs[0]), "faulty_run": runcfg_json(rc),
